@@ -5,7 +5,8 @@
 
 static CC_TreeTable *tt;
 static CC_TreeTableIter it; static int have_it;
-static void shim_reset(void) { tt = NULL; have_it = 0; cmp_calls = 0; }
+static int sparse;   /* obs=sparse: no content sweep after the operations, only on `observe` */
+static void shim_reset(void) { tt = NULL; have_it = 0; cmp_calls = 0; sparse = 0; }
 
 /* content through the public API: a fresh iterator (no comparator calls) */
 static void obs_abs(void) {
@@ -30,6 +31,7 @@ static void do_op(Cmd *c) {
     cmp_calls = 0;
     if (is_op(c, "new") || is_op(c, "new_default")) {
         int which = (int)kv_u64(c, "cmp", 0);
+        sparse = !strcmp(kv_str(c, "obs", ""), "sparse");
         tt = NULL; have_it = 0;
         if (is_op(c, "new")) {
             CC_TreeTableConf conf; cc_treetable_conf_init(&conf);
@@ -90,11 +92,13 @@ static void do_op(Cmd *c) {
         if (!have_it || it.current == tt->sentinel) o("st=- noiter ");   /* precondition: after a next */
         else { st = cc_treetable_iter_remove(&it, noout ? NULL : &out); o_stat(st);
             if (st == CC_OK && !noout) o(" out=%llu", VAL(out)); o(" "); }
+    } else if (is_op(c, "observe")) {
+        o("st=- "); obs_abs(); o_sep(); phys(); return;
     } else if (is_op(c, "destroy")) {
         cc_treetable_destroy(tt); tt = NULL; have_it = 0; o("st=- ");
     } else { o("st=- badop "); }
     size_t calls = cmp_calls;
-    obs_abs();
+    if (!sparse) obs_abs();
     if (calls > cmp_bound(n0)) o(" WALK=cmp-bound");
     cmp_calls = calls;
     o_sep(); phys();
